@@ -8,7 +8,7 @@ const TOKS: [&str; 9] = ["a", "d41d8cd98f00b204e9800998ecf8427e", "pool/main/f/f
 const INTS: [&str; 4] = ["0", "1", "2147483647", "9223372036854775808"];
 const URLS: [&str; 5] = ["https://salsa.debian.org/jelmer/deb822-lossless.git", "lp:foo", "git://x.example/~u/r?a=b", "https://[2001:db8::1]:8443/git/foo.git", "ssh://git@host.example:2222/~user/-b/repo.git"];
 const BR: [&str; 2] = ["main", "debian/sid"];
-const SP: [&str; 2] = ["sub", "a/b-c"];
+const SP: [&str; 4] = ["sub", "a/b-c", "gtk+3.0", "x:y~z@2"];
 
 fn rt<T: FromStr + PartialEq + std::fmt::Debug>(o: &mut Outcome, ty: &str, v: &T, print: impl Fn(&T) -> String, feats: &[String]) where <T as FromStr>::Err: std::fmt::Debug {
     o.evals += 1;
